@@ -98,6 +98,27 @@ func TestStubSemantics(t *testing.T) {
 		t.Fatalf("range: %v", all)
 	}
 
+	// a find returns 101 documents first, the rest through getMore ("the first batch ... 101 documents")
+	big := c.Database("d").Collection("big")
+	var many []interface{}
+	for i := 0; i < 250; i++ {
+		many = append(many, bson.M{"_id": i, "duid": "y", "sseq": int64(i + 1)})
+	}
+	if _, err := big.InsertMany(ctx, many); err != nil {
+		t.Fatal(err)
+	}
+	cur, err = big.Find(ctx, bson.D{{Key: "duid", Value: "y"}}, options.Find().SetSort(bson.D{{Key: "sseq", Value: 1}}))
+	if err != nil {
+		t.Fatal(err)
+	}
+	all = nil
+	if err := cur.All(ctx, &all); err != nil || len(all) != 250 || all[249]["sseq"].(int64) != 250 {
+		t.Fatalf("cursor over 250 documents: %d %v", len(all), err)
+	}
+	if srv.Commands["getmore"] == 0 {
+		t.Fatalf("expected getMore to be used")
+	}
+
 	// replace with upsert
 	rr, err := col.ReplaceOne(ctx, bson.M{"_id": "doc"}, bson.M{"x": 1}, options.Replace().SetUpsert(true))
 	if err != nil || rr.UpsertedCount != 1 {
